@@ -296,6 +296,42 @@ Definition decls_single (ds : list (bytes * bytes)) : bool :=
     negb (bytes_eqb (snd d1) (snd d2)) || bytes_eqb (fst d1) (fst d2)) ds) ds.
 Definition uri_single_prefix (d : xdoc) : bool := decls_single (doc_decls d).
 
+(* lastwins_ok: the weaker guard.  The reader keeps ONE map URI -> prefix for the whole document
+   and every declaration overwrites it (last declaration wins, document order).  lastwins_ok says
+   that at every element and prefixed attribute that map holds the prefix WRITTEN at that node
+   for the node's URI.  Documents outside it are exactly the known class F11; a document that
+   re-binds a URI in an inner scope and uses the new prefix there (and the old one only before)
+   is inside, although it is outside uri_single_prefix. *)
+Definition lw_use (m env : smap) (p : bytes) : bool :=
+  let u := scope_uri env p in
+  is_nil u || opt_eqb bytes_eqb (slookup m u) (Some p).
+Definition lw_attr (m env : smap) (a : xattr) : bool :=
+  if bytes_eqb (xa_pfx a) b_xmlns then true
+  else if is_nil (xa_pfx a) then true
+  else lw_use m env (xa_pfx a).
+(* the reader's map after the declarations of a start tag (see Proofs/XmlScope.v update_ns_eq) *)
+Definition lw_declare (m : smap) (attrs : list xattr) : smap :=
+  rev (map (fun d => (snd d, fst d)) (attr_decls attrs)) ++ m.
+Fixpoint lw_node (env m : smap) (n : xnode) : bool * smap :=
+  match n with
+  | XElem p l attrs kids =>
+      let env' := push_decls env attrs in
+      let m' := lw_declare m attrs in
+      (fix go (ks : list xnode) (m : smap) (ok : bool) : bool * smap :=
+         match ks with
+         | [] => (ok, m)
+         | k :: r => let '(b, m1) := lw_node env' m k in go r m1 (ok && b)
+         end) kids m' (lw_use m' env' p && forallb (lw_attr m' env') attrs)
+  | _ => (true, m)
+  end.
+Definition lw_init : smap := [(xml_url, b_xml)].
+Fixpoint lastwins_ok (d : xdoc) : bool :=
+  match d with
+  | [] => true
+  | (XElem _ _ _ _ as e) :: _ => fst (lw_node [] lw_init e)
+  | _ :: r => lastwins_ok r
+  end.
+
 (* ns_wf: namespace well-formedness of the names used (Namespaces in XML 1.0):
    - a prefixed declaration binds a non-empty URI; no declaration binds the literal URI "xmlns";
      the prefixes "xmlns" and "xml" are not declared (nor the xml namespace URI as a prefix:
@@ -397,14 +433,14 @@ Record xcase := mkXCase {
   xc_tree : option tree;       (* NewXMLStreamReader(text, ".").Read(): dump of the node's root *)
   xc_elem : option tree;       (* ... and of the returned node itself *)
   xc_iface : jvalue;           (* J2NodeToInterface(returned node, true), keys sorted *)
-  xc_guard : bool;             (* the harness believes the document is inside ns_wf /\ uri_single_prefix *)
+  xc_guard : bool;             (* the harness believes the document is inside ns_wf /\ lastwins_ok *)
 }.
 
 Definition no_ftab (_ : bytes) : N := 0%N.
 
 Definition check_xcase (c : xcase) : bool :=
   list_eqb xtok_eqb (xtokens (xc_doc c)) (xc_toks c)
-  && Bool.eqb (xc_guard c) (ns_wf (xc_doc c) && uri_single_prefix (xc_doc c))
+  && Bool.eqb (xc_guard c) (ns_wf (xc_doc c) && lastwins_ok (xc_doc c))
   && match xread xinit (xc_toks c), xc_tree c, xc_elem c with
      | (XRNode e d, _, rest), Some d', Some e' =>
          tree_eqb d d' && tree_eqb e e'
